@@ -1040,25 +1040,35 @@ func onlyID(c *core.Ctx) string {
 }
 
 // largeSideCases: the "large failing side" family. StreamJoin's sources run in goroutines that
-// hand records to the join through 10000-slot channels; a source that fails while it is far ahead
-// of the join must still get its error through. So: an inner join whose failing input has 20000
-// rows with the fault at the very end, made slow relative to that source (7 distinct keys, every
-// failing-side row matches 300 rows of the other side; a global count(*) keeps the output small),
-// fault on the left and on the right, GOMAXPROCS 1 and 16, each configuration twice (the schedule
-// in which the source sits exactly a full buffer ahead is likely but not certain).
+// hand records to the join through 10000-slot channels; a source that fails while it sits a full
+// buffer ahead of the join must still get its error through. So: an inner join whose failing
+// input has 20000 rows with the fault at the very end. The join is made slow exactly when it
+// matters: the ~55 rows the join is working on while the source reaches its end (10000 rows
+// behind it) carry a hot key that matches 15000 rows of the other side, every other row matches
+// one row, and a global count(*) keeps the output small. Fault on the left and on the right,
+// GOMAXPROCS 1 and 16. (Against a join that drops the error when its buffer is full, about 45 %
+// of these runs exit 0, measured; with 12 runs per check a miss is practically excluded.)
 func largeSideCases(c *core.Ctx, runner *cli.Runner) []*acase {
 	if os.Getenv("VERIF_C06_FAULTS") != "" && !strings.Contains(os.Getenv("VERIF_C06_FAULTS"), "large-side") {
 		return nil
 	}
-	const n, keys, fan = 20000, 7, 300
+	const n, hotFan = 20000, 15000
+	const hotLo, hotHi = n - 10040, n - 9985
 	dir := runner.NewDir()
 	var big strings.Builder
 	for i := 0; i < n; i++ {
-		fmt.Fprintf(&big, "{\"id\":%d,\"k\":%d}\n", i, i%keys)
+		k := 2 + i%5
+		if i >= hotLo && i < hotHi {
+			k = 1
+		}
+		fmt.Fprintf(&big, "{\"id\":%d,\"k\":%d}\n", i, k)
 	}
 	var small strings.Builder
-	for i := 0; i < keys*fan; i++ {
-		fmt.Fprintf(&small, "{\"k\":%d,\"v\":%d}\n", i%keys, i)
+	for i := 0; i < hotFan; i++ {
+		fmt.Fprintf(&small, "{\"k\":1,\"v\":%d}\n", i)
+	}
+	for k := 2; k < 7; k++ {
+		fmt.Fprintf(&small, "{\"k\":%d,\"v\":0}\n", k)
 	}
 	files := map[string]string{
 		"big.json":           big.String(),
@@ -1107,7 +1117,7 @@ func largeSideCases(c *core.Ctx, runner *cli.Runner) []*acase {
 				out = append(out, &acase{id: "control|" + ck, f: v.f, o: sd.o, mode: mode, p: pos{"end-of-large-input", n}, opt: true, control: true, dir: dir, sql: csql, ctl: ck})
 			}
 			for _, procs := range []int{1, 16} {
-				for rep := 0; rep < 2; rep++ {
+				for rep := 0; rep < 1; rep++ {
 					out = append(out, &acase{
 						id: fmt.Sprintf("%s|%s|%s|GOMAXPROCS=%d|rep=%d", v.f.name, sd.o.name, mode, procs, rep),
 						f:  v.f, o: sd.o, mode: mode, p: pos{"end-of-large-input", n}, opt: true, dir: dir, sql: sd.sql(v.bad), ctl: ck,
@@ -1117,6 +1127,6 @@ func largeSideCases(c *core.Ctx, runner *cli.Runner) []*acase {
 			}
 		}
 	}
-	c.Note("large_failing_side_family", fmt.Sprintf("%d-row failing join input, fault at the end, %d matches per row, 3 faults x 2 sides x GOMAXPROCS{1,16} x 2 repetitions", n, fan))
+	c.Note("large_failing_side_family", fmt.Sprintf("%d-row failing join input, fault at the end, rows %d..%d match %d rows of the other side (all others one), 3 faults x 2 sides x GOMAXPROCS{1,16}", n, hotLo, hotHi-1, hotFan))
 	return out
 }
